@@ -279,7 +279,7 @@ def run(sh):
                    period_consistency_threshold=float(rng.choice([.3, .5, .7])), monotonicity_threshold=float(rng.choice([.3, .5, .7])),
                    min_n_cycles=int(rng.choice([1, 2, 3])))
         case = {'sig': sig, 'fs': fs, 'f_range': (lo, hi), 'center': str(rng.choice(['peak', 'trough'])), 'thr': thr,
-                'reduction': float(rng.choice([0, 0, .05, .1, .2])), 'api': 'func' if rng.random() < 0.75 else 'obj', 'family': fam,
+                'reduction': float(rng.choice([0, 0, .05, .1, .2, -.1, -.2])), 'api': 'func' if rng.random() < 0.75 else 'obj', 'family': fam,
                 'index': [None, None, None, 'offset', 'gaps'][int(rng.integers(0, 5))], 'twice': bool(rng.random() < 0.5)}
         one(sh, case)
         if it % 10 == 0:
